@@ -52,6 +52,7 @@ def gen_script(rng, max_gates=24, max_in=6, max_ff=3, p_glitchy=0.2, style=None,
         elif r < 0.55: kind = rng.choice(N_ARY)
         else: kind = rng.choice([k for k in FIXED if allow_const or FIXED[k] > 0])
         n = FIXED[kind] if kind in FIXED else rng.randint(2, 4)
+        if rng.random() < 0.06 and n >= 2: n -= rng.randint(1, n - 1)      # trailing pins not connected at all (they read 0)
         srcs = []
         for _ in range(n):
             if chain:
